@@ -120,15 +120,28 @@ def run_config(res, n, d, fc, sc, ks, queries, stats):
     except Exception:  # noqa
         rd_early = None
     i = 0
+    unsorted_call = {}
     while i < len(ks):
         m = rng.choice([1, 1, 2, 3, 5])
         chunk = ks[i:i + m]
+        vals = list(range(i, i + len(chunk)))
+        if len(chunk) >= 3 and rng.random() < 0.35:
+            # the indices of one call in another order than ascending: two neighbours first and last, the rest between
+            # them (a sample's file is a function of its index, not of its position in the call)
+            a = rng.randrange(len(chunk) - 1)
+            order = [a] + [t for t in range(len(chunk)) if t not in (a, a + 1)] + [a + 1]
+            if rng.random() < 0.3:
+                order.reverse()
+            chunk, vals = [chunk[t] for t in order], [vals[t] for t in order]
+            for x in chunk:
+                unsorted_call[x] = list(chunk)
+            res.count("write:call-not-ascending")
         if len(chunk) == 1 and rng.random() < 0.5:
             w.write(chunk[0], {"v": i})
         elif rng.random() < 0.5:
-            w.write(chunk, {"v": list(range(i, i + len(chunk)))})
+            w.write(chunk, {"v": vals})
         else:
-            w.write(chunk, [{"v": i + t} for t in range(len(chunk))])
+            w.write(chunk, [{"v": v} for v in vals])
         i += len(chunk)
     where, files = walk_samples(top)
     fileset = set(files)
@@ -162,6 +175,8 @@ def run_config(res, n, d, fc, sc, ks, queries, stats):
         res.case(("place", n, d, fc, sc, k), nontrivial=True)
         res.count("write:boundary-sample" if onb else "write:interior-sample")
         inp = dict(cfgi, k=k, others=[x for x in ks[max(0, t - 2):t + 3] if x != k])
+        if k in unsorted_call:
+            inp["call"] = unsorted_call[k]
         if got != [exp]:
             sig = "writer-file-not-exact" if [g.split("/")[1] for g in got] != [exp.split("/")[1]] \
                 else "subdir-not-exact"
@@ -519,8 +534,14 @@ def replay(res, rp):
     print("subdir cadence, file cadence, numerator, denominator passed as", at, "; file name prefix", repr(PREFIX))
     w = digital_rf.DigitalMetadataWriter(top, F(at[0], sc), F(at[1], fc), F(at[2], n), F(at[3], d), PREFIX)
     ks = sorted(set([k] + list(i.get("others", [])) + list(i.get("written", []))))
+    call = [int(x) for x in i.get("call") or []]
+    if call:
+        print("written in ONE call, in this order:", call)
+        w.write(call, {"v": list(range(len(call)))})
     for x in ks:
-        w.write(x, {"v": 1})
+        if x not in call:
+            w.write(x, {"v": 1})
+    ks = sorted(set(ks) | set(call))
     where, files = walk_samples(top)
     rd = digital_rf.DigitalMetadataReader(common.path_form(top))
     S, T = spec_path(n, d, fc, sc, k)
